@@ -398,7 +398,23 @@ pub fn steps_enc(steps: &[Step]) -> String {
 impl Prog {
     pub fn has_barrier(&self) -> bool { self.steps.iter().any(Step::is_barrier) }
     pub fn has_join(&self) -> bool { self.steps.iter().any(|s| matches!(s, Step::Join(..))) }
-    pub fn canon(&self) -> &'static str { if self.has_barrier() { "deep" } else { "seq" } }
+    /// how answers are canonicalised before they are compared:
+    /// * `seq`  — no barrier: the exact sequence;
+    /// * `top`  — exactly ONE hash-ordered step (a grouping / per-key combine / distinct / top-k), no `HashSet`-valued
+    ///   accumulator anywhere and no join: only the order of the top-level rows depends on the hash map; the order
+    ///   INSIDE every group is defined by the code (a key's values arrive in source order in sequential mode and in
+    ///   partition order = source order in parallel mode), so only the top level is sorted and nested lists are
+    ///   compared as sequences;
+    /// * `deep` — otherwise: every nested list sorted.
+    pub fn canon(&self) -> &'static str {
+        if !self.has_barrier() { return "seq"; }
+        fn uses_dset(s: &Step) -> bool {
+            matches!(s, Step::CombineValues(Comb::Dset) | Step::CombineValuesLifted(Comb::Dset) | Step::CombineGlobally(Comb::Dset, _) | Step::CombineGloballyLifted(Comb::Dset, _))
+        }
+        let hash_ordered = self.steps.iter().filter(|s| matches!(s, Step::Gbk | Step::CombineValues(_) | Step::CombineValuesLifted(_)
+            | Step::Distinct | Step::DistinctPerKey | Step::TopKPerKey(_) | Step::Join(..))).count();
+        if hash_ordered == 1 && !self.has_join() && !self.steps.iter().any(uses_dset) { "top" } else { "deep" }
+    }
     /// request text for a given mode (`seq`, `par:N`, `lit`, `noreorder`)
     pub fn request(&self, mode: &str) -> String {
         format!("PIPE mode={mode} canon={} src {}{}", self.canon(), V::L(self.src.clone()).enc(), steps_enc(&self.steps))
@@ -668,7 +684,12 @@ pub fn run_real(prog: &Prog, mode: Mode) -> Outcome {
 
 pub fn canon_rows(rows: &[V], canon: &str) -> V {
     let v = V::L(rows.to_vec());
-    if canon == "deep" { v.deep_canon() } else { v }
+    if canon == "deep" { v.deep_canon() }
+    else if canon == "top" {
+        let mut c: Vec<(String, V)> = rows.iter().map(|r| (r.enc(), r.clone())).collect();
+        c.sort_by(|a, b| a.0.cmp(&b.0));
+        V::L(c.into_iter().map(|x| x.1).collect())
+    } else { v }
 }
 
 pub fn outcome_answer(o: &Outcome, canon: &str) -> String {
